@@ -20,9 +20,11 @@ Layouts == [ncol : 0..2, nobj : 0..2]
 Chains == {[srv |-> s, prefix |-> p, ptrail |-> pt, lay |-> l] : s \in {"cal", "card"}, p \in MountPrefixes, pt \in BOOLEAN, l \in Layouts}
 \* ---- C11: PROPFIND accounting: resource x depth x requested name list (sequences: duplicates occur) x layout
 Known == {"DAV: resourcetype", "DAV: getetag", "DAV: displayname", "DAV: current-user-principal", "DAV: getcontentlength", "SRV: data", "SRV: home-set", "CARD: home-set"}
-Unknown == {"DAV: nosuchprop", "urn:example:ns foo"}
+Unknown == {"DAV: nosuchprop", "urn:example:ns foo", "urn:example:ns getetag", "urn:example:ns resourcetype"}
 NameLists == UNION {[1..n -> S] : n \in 1..2, S \in {{"DAV: resourcetype", "DAV: getetag", "DAV: nosuchprop", "urn:example:ns foo"}}}
              \cup {<<a, a>> : a \in Known} \cup {<<a, b, a>> : a \in {"DAV: resourcetype", "DAV: nosuchprop"}, b \in {"DAV: getetag", "urn:example:ns foo"}}
+             \* the same local name in two namespaces: two distinct properties
+             \cup {<<"DAV: getetag", "urn:example:ns getetag">>, <<"urn:example:ns getetag", "DAV: getetag">>, <<"urn:example:ns resourcetype", "DAV: resourcetype", "DAV: getetag">>}
              \cup {<<a>> : a \in Known} \cup {<<"SRV: home-set", "CARD: home-set">>, <<"CARD: home-set", "DAV: resourcetype", "SRV: home-set">>}
 PfRes(lay) == {"ROOT", "P", "H"} \cup Cols(lay) \cup Objs(lay)
 PfReqs == {[srv |-> s, res |-> r, depth |-> d, names |-> nl, lay |-> l] :
